@@ -69,13 +69,11 @@ Theorem voided_by_choke : forall s p c s', get_conn s p = Some c -> accept s (Ch
     (forall e, In e (c_q c ++ c_u c) -> In e (c_c c')).
 Proof.
   intros s p c s' G A. cbn [accept] in A. rewrite G in A. pose proof (get_conn_lt _ _ _ G) as L.
-  destruct (c_q c) as [|eq lq] eqn:Q; destruct (c_u c) as [|eu lu] eqn:U; inversion A; subst s'; eexists;
+  destruct (c_q c) as [|eq lq] eqn:Q; destruct (c_u c) as [|eu lu] eqn:U;
+    destruct (if choke_checks_stalled then c_s c else []) as [|es ls] eqn:S3; inversion A; subst s'; eexists;
     (split; [unfold get_conn, set_conn; cbn; rewrite nth_error_set_nth_eq by assumption; reflexivity|]); cbn;
-    repeat split; try reflexivity; try assumption.
-  - intros e0 In0. cbn in In0. contradiction.
-  - intros e0 In0. apply in_mid with (a := []) (b := eu :: lu). assumption.
-  - intros e0 In0. apply in_mid with (a := eq :: lq) (b := []). assumption.
-  - intros e0 In0. apply in_mid with (a := eq :: lq) (b := eu :: lu). assumption.
+    repeat split; try reflexivity; try assumption;
+    intros e0 In0; repeat (progress (rewrite ?in_app_iff in *; cbn [In app] in * )); tauto.
 Qed.
 
 Theorem released_by_choke_timer : forall s p c s', get_conn s p = Some c -> accept s (DropChoked p) = Some s' ->
